@@ -23,6 +23,26 @@ pub struct SchemeGen {
 const JUNK: [&str; 8] = ["abc", "5", "0-0", "-3-4", "", " ", "7-", "x-9"];
 
 impl SchemeGen {
+    /// The built-in scheme of the crate.
+    pub fn builtin() -> Self {
+        use PartGen::*;
+        let r = |a, b| Range(a, b);
+        SchemeGen {
+            stop: 8,
+            lines: vec![
+                (0, vec![r(30, 30)]),
+                (1, vec![r(100, 400)]),
+                (2, vec![r(400, 500), Check, r(500, 1000), Check, r(500, 1000), Check, r(500, 1000), Check, r(500, 1000)]),
+                (3, vec![r(9, 9), r(500, 1000)]),
+                (4, vec![r(500, 1000)]),
+                (5, vec![r(500, 1000)]),
+                (6, vec![r(500, 1000)]),
+                (7, vec![r(500, 1000)]),
+            ],
+            crlf: false,
+            junk_line: false,
+        }
+    }
     pub fn text(&self) -> String {
         let nl = if self.crlf { "\r\n" } else { "\n" };
         let mut out = format!("stop={}", self.stop);
